@@ -69,7 +69,7 @@ def save_values_and_dt(ffp, values, dt, label):
 
 def load_signal(ffp, astype='sig'):
     vals, dt = load_values_and_dt(ffp)
-    if astype == "signal":
+    if astype in ("signal", "sig"):  # 'sig' is the documented default
         return Signal(vals, dt)
     elif astype == "acc_sig":
         return AccSignal(vals, dt)
